@@ -106,6 +106,23 @@ impl Endpoint {
             DtlsState::Failed => 'F', DtlsState::Closed => 'X',
         }
     }
+    /// A thread that keeps reading `subscribe_state()` while the run loop is polled, so that a value published
+    /// only transiently (e.g. `Connected` sent before a check that then fails) is seen with high probability —
+    /// upper layers (SCTP, SRTP set-up) act on whatever they see there.
+    pub fn spy(&self) -> WatchSpy {
+        let rx = self.dtls.subscribe_state();
+        let stop = Arc::new(std::sync::atomic::AtomicBool::new(false));
+        let seen = Arc::new(std::sync::atomic::AtomicU8::new(0));
+        let (stop2, seen2) = (stop.clone(), seen.clone());
+        let handle = std::thread::spawn(move || {
+            while !stop2.load(std::sync::atomic::Ordering::Relaxed) {
+                let bit = match &*rx.borrow() { DtlsState::New => 1u8, DtlsState::Handshaking => 2, DtlsState::Connected(..) => 4, DtlsState::Failed => 8, DtlsState::Closed => 16 };
+                seen2.fetch_or(bit, std::sync::atomic::Ordering::Relaxed);
+                std::hint::spin_loop();
+            }
+        });
+        WatchSpy { stop, seen, handle: Some(handle) }
+    }
     /// state as text: the Mutex state, followed by `!<watch>` if the watch channel disagrees
     pub fn state_text(&self) -> String {
         let (m, w) = (self.letter(), self.watch_letter());
@@ -241,6 +258,17 @@ pub struct Pair {
     /// (from_client, datagram)
     pub log: Vec<(bool, Vec<u8>)>,
 }
+
+pub struct WatchSpy { stop: Arc<std::sync::atomic::AtomicBool>, seen: Arc<std::sync::atomic::AtomicU8>, handle: Option<std::thread::JoinHandle<()>> }
+impl WatchSpy {
+    /// stop and report whether the watch channel ever showed `Connected`
+    pub fn saw_connected(mut self) -> bool {
+        self.stop.store(true, std::sync::atomic::Ordering::Relaxed);
+        if let Some(h) = self.handle.take() { let _ = h.join(); }
+        self.seen.load(std::sync::atomic::Ordering::Relaxed) & 4 != 0
+    }
+}
+impl Drop for WatchSpy { fn drop(&mut self) { self.stop.store(true, std::sync::atomic::Ordering::Relaxed); } }
 
 pub fn certs() -> (Certificate, Certificate) {
     (rustrtc::transports::dtls::generate_certificate().unwrap(), rustrtc::transports::dtls::generate_certificate().unwrap())
